@@ -129,7 +129,11 @@ def judge(ctx: core.Ctx, case: dict[str, Any]) -> None:
     if not base.ok:
         ctx.count("unlimited_twin_failed_skipped")
         return
-    U = len(base.value.encode("utf-8"))
+    try:
+        U = len(base.value.encode("utf-8"))
+    except UnicodeEncodeError:
+        ctx.unspecified("lone-surrogate-in-output-has-no-utf8-size")
+        return
     # measure S with an effectively unlimited namespace limit so that the hook sees the sizes
     _, h1 = run(case, "strict", {"local_namespace_limit": 10**12}, data)
     S = h1["max_size"]
